@@ -74,14 +74,14 @@ func main() {
 		root := scratch + "/root"
 
 		if lines := c.ReplayLines(); lines != nil {
-			c.Note("replay re-executes the model side only: a C12 case is a real directory tree; the op line is its description")
+			c.Note("replay rebuilds the described tree (new inode numbers), rescans it and re-evaluates model and oracle; trees that need mounts are re-checked on the model side only")
 			for _, l := range lines {
-				c.Case(l, "replay-needs-regeneration", "", "")
+				replay(c, root, l)
 			}
 			return
 		}
 
-		n := c.Size(2500, 40000)
+		n := c.Size(4000, 40000)
 		for i := 0; i < n && !scanx.Hung; i++ {
 			r := c.R
 			cfg := &scanx.Cfg{SymlinkMode: slModes[i%3], PermsMode: pmModes[(i/3)%2]}
@@ -206,6 +206,54 @@ func main() {
 			scanx.Cleanup(root)
 		}
 	})
+}
+
+// replay re-executes one op line: the described tree is rebuilt on disk, read
+// back, scanned with the line's configuration (the ignorer as a table), and the
+// case is emitted with the fresh description.
+func replay(c *hx.Ctx, root, line string) {
+	pl, err := scanx.ParseLine(line)
+	if err != nil || len(pl.Steps) != 1 {
+		c.Case(line, "unparseable-replay-line", "", "")
+		return
+	}
+	st := pl.Steps[0]
+	var dev uint64
+	if st.FS != nil {
+		dev = st.FS.Dev
+	}
+	if !scanx.Rebuildable(st.FS, dev) {
+		c.Case(line, "replay-needs-mounts", "", "")
+		return
+	}
+	scanx.Cleanup(root)
+	if st.FS != nil {
+		if err := scanx.Materialize(root, st.FS); err != nil {
+			c.Case(line, "replay-materialize-failed", "", "")
+			return
+		}
+	}
+	desc, err := scanx.Describe(root)
+	if err != nil {
+		panic(err)
+	}
+	cfg := pl.Cfg
+	contract := true
+	scanx.Walk(desc, "", st.Du, func(p string, _ *scanx.Node) {
+		for _, d := range []bool{false, true} {
+			status, cont := cfg.Ignorer.Ignore(p, d)
+			if cont && (!d || status == 2) {
+				contract = false
+			}
+		}
+	})
+	res := scanx.Scan(root, cfg, st.Px, st.Du, nil)
+	ignTable := scanx.EncIgnTable(scanx.IgnTable(cfg.Ignorer, []bool{st.Du}, desc))
+	op := scanx.LineHead(cfg, ignTable, scanx.EncNfcTable(desc)) + " " +
+		scanx.EncStep(&scanx.Step{Px: st.Px, Du: st.Du, CacheMod: "c", FS: desc})
+	oracle := scanx.CheckCold(&scanx.OracleIn{Desc: desc, Cfg: cfg, Px: st.Px, Du: st.Du, ContractOK: contract, Digest: fnvDigest, Res: res})
+	c.Case(op, scanx.EncResult(res), oracle, "replay")
+	scanx.Cleanup(root)
 }
 
 // sameShape compares two entry trees ignoring digests.
